@@ -13,4 +13,11 @@ theorem dynamic_imports_confined : dynamicImports =
      ("rp2/rp2_main.py", "f'{_ACCOUNTING_METHOD_PACKAGE}.{accounting_method_name}'")] := by decide
 /-- rp2's own `open()` calls are all read-only (reports are written by ezodf into the output directory, logs by `logging` under ./log) -/
 theorem opens_read_only : (opens.all fun o => o.2 == "r") = true := by decide
+/-- every call that creates, changes or deletes a file or directory: the log directory, the output directory, the report about to be
+    rewritten (unlink of that very path) and the `save` of each report generator — nothing touches the input or configuration file -/
+theorem file_mutations_confined' : fileMutations =
+    [("rp2/logger.py", "Path('./log').mkdir"), ("rp2/plugin/report/abstract_ods_generator.py", "output_file_path.unlink"),
+     ("rp2/plugin/report/ie/tax_report_ie.py", "output_file.save"), ("rp2/plugin/report/jp/tax_report_jp.py", "output_file.save"),
+     ("rp2/plugin/report/open_positions.py", "output_file.save"), ("rp2/plugin/report/rp2_full_report.py", "output_file.save"),
+     ("rp2/plugin/report/us/tax_report_us.py", "output_file.save"), ("rp2/rp2_main.py", "output_dir_path.mkdir")] := by decide
 end Rp2.Tables
